@@ -33,7 +33,7 @@ CONTRACTS = {
     requires=['sizes_ok(self.model)', 'pairs_ok(self.model)', 'self.model.num_lecturers >= 1', 'rows_sorted(self.model)',
               ('one-list-per-project', 'len(self.model.project_lists) == self.model.num_projects'), ('one-list-per-lecturer', 'len(self.model.lecturer_lists) == self.model.num_lecturers'),
               ('derived-lists-hold-model-pairs', LISTS_OK.format('project_lists') + ' and ' + LISTS_OK.format('lecturer_lists') + ' and ' + LISTS_OK.format('rank_lists')),
-              ('well-formed-targets', 'forall(k, 0, self.model.num_lecturers, 0 <= self.model.lec_targets[k] and self.model.lec_targets[k] <= self.model.lec_upper_quotas[k])'),
+              ('well-formed-targets', 'forall(k, 0, self.model.num_lecturers, 0 <= self.model.lec_lower_quotas[k] and 0 <= self.model.lec_targets[k] and self.model.lec_targets[k] <= self.model.lec_upper_quotas[k])'),
               ('stability-needs-two-sided-lists', 'implies(' + OP + 'extra_constraints[Extra_constraints.STAB], two_sided(self.model))'),
               ('each-criterion-at-most-once', 'forall(a, 0, len(' + OP + 'optimisation_options), forall(b, a + 1, len(' + OP + 'optimisation_options), ' + OP + 'optimisation_options[a][0] != ' + OP + 'optimisation_options[b][0]))'),
               ('criteria-are-members', 'forall(a, 0, len(' + OP + 'optimisation_options), 1 <= ' + OP + 'optimisation_options[a][0] and ' + OP + 'optimisation_options[a][0] <= 9)'),
